@@ -1,6 +1,7 @@
 package drivers
 
 import (
+	"io"
 	"bytes"
 	"context"
 	"encoding/binary"
@@ -167,15 +168,21 @@ func buildRecord(rng *rand.Rand, r wireRow) any {
 
 // segReader returns data in small pieces (like a network stream).
 type segReader struct {
-	r   *bytes.Reader
-	max int
+	r           *bytes.Reader
+	max         int
+	eofWithData bool
 }
 
 func (s *segReader) Read(p []byte) (int, error) {
 	if len(p) > s.max {
 		p = p[:s.max]
 	}
-	return s.r.Read(p)
+	n, err := s.r.Read(p)
+	if s.eofWithData && err == nil && s.r.Len() == 0 {
+		// the last bytes arrive together with the end of the stream (a FIN riding in the last data frame)
+		return n, io.EOF
+	}
+	return n, err
 }
 
 func equalRecord(a, b any) bool {
@@ -227,16 +234,25 @@ func WireValues(args []string) {
 				res.AddDrift(map[string]any{"why": "encoded length differs from Wire.tla's EncodedLen", "row": replay, "got": buf.Len() - before, "want": wantLens[i]})
 			}
 		}
-		for _, segment := range []int{1 << 30, 1200, 7} {
+		for _, segment := range []int{1 << 30, 1200, 7, -1200, -7} {
+			// (negative: pieces of that size, the last one delivered together with io.EOF)
 			rd := &segReader{r: bytes.NewReader(buf.Bytes()), max: segment}
-			for i, rec := range recs {
+			if segment < 0 {
+				rd.max, rd.eofWithData = -segment, true
+			}
+			gots := make([]any, 0, len(recs))
+			for i := range recs {
 				_, got, err := transfer.VerifReadControlMessage(rd)
 				if err != nil {
 					res.AddViolation(map[string]any{"kind": "decoder_fails_on_encoded_record", "case": kind}, map[string]any{"row": replay, "index": i, "err": err.Error(), "segment": segment})
 					return
 				}
-				if !equalRecord(rec, got) {
-					res.AddViolation(map[string]any{"kind": "decoded_value_differs", "case": kind}, map[string]any{"row": replay, "index": i, "segment": segment})
+				gots = append(gots, got)
+			}
+			// compared once the whole sequence has been decoded: a decoded value must not change when the next one is read
+			for i, rec := range recs {
+				if !equalRecord(rec, gots[i]) {
+					res.AddViolation(map[string]any{"kind": "decoded_value_differs", "case": kind}, map[string]any{"row": replay, "index": i, "segment": segment, "of": len(recs)})
 					return
 				}
 			}
